@@ -26,7 +26,7 @@ func TestProp(t *testing.T) {
 		r.Inconclusive("reference self-test failed: " + err.Error())
 		return
 	}
-	r.SetRule("differential against ref/kcrypto: string-to-key (etype x password classes empty/ASCII/Latin-1/BMP/combining/supplementary/long x salts x iteration counts), malformed parameters, " +
+	r.SetRule("differential against ref/kcrypto: string-to-key (etype x password classes empty/ASCII/Latin-1/BMP/combining/supplementary/long x salts x iteration counts; thorough: plus 30 seeded passwords and 10 seeded salts over all Unicode planes), malformed parameters, " +
 		"n-fold (every input length 1..64 x outputs 64/128/168/192/256 bits x 3 contents), DK/DR (constants of every length 1..16 for 17/18, 1..8 for 16; usage labels for 19/20), " +
 		"des3 random-to-key incl. crafted weak/semi-weak groups, PA-data precedence (every permutation of every subset of INFO2/INFO/PW-SALT), generated keys per etype. " +
 		"distinct = case key; non-trivial = all (each compares a computed value)")
@@ -90,6 +90,39 @@ func s2kTasks(r *vh.Run, add func(func())) {
 	iters := []uint32{0, 1, 2, 3, 4095, 4096, 4097, 5000}
 	for i := 0; i < nseeded; i++ {
 		iters = append(iters, uint32(1+rnd.Intn(5000)))
+	}
+	passwords, salts := passwords, salts
+	if vh.Thorough() {
+		// seeded strings over ASCII, Latin-1, the BMP and the supplementary planes, lengths 1..40 and a few long ones
+		gen := func(g *vh.Rand, n int) string {
+			rs := make([]rune, n)
+			for i := range rs {
+				switch g.Intn(6) {
+				case 0, 1:
+					rs[i] = rune(0x20 + g.Intn(0x5f))
+				case 2:
+					rs[i] = rune(0xa0 + g.Intn(0x60))
+				case 3:
+					rs[i] = rune(0x100 + g.Intn(0xd700))
+				case 4:
+					rs[i] = rune(0xe000 + g.Intn(0x1ffe))
+				default:
+					rs[i] = rune(0x10000 + g.Intn(0xfffff))
+				}
+			}
+			return string(rs)
+		}
+		g := vh.NewRand("c08strings")
+		for i := 0; i < 30; i++ {
+			n := 1 + g.Intn(40)
+			if i%10 == 9 {
+				n = 300 + g.Intn(1500)
+			}
+			passwords = append(passwords, struct{ class, pw string }{fmt.Sprintf("seeded-%d", i), gen(g, n)})
+		}
+		for i := 0; i < 10; i++ {
+			salts = append(salts, struct{ class, s string }{fmt.Sprintf("seeded-%d", i), gen(g, 1+g.Intn(60))})
+		}
 	}
 	for _, et := range kcrypto.Etypes {
 		et := et
